@@ -60,25 +60,38 @@ Theorem C10_import_refers_to_generated_file_refuted :
 Proof. vm_compute. repeat split; reflexivity. Qed.
 Print Assumptions C10_import_refers_to_generated_file_refuted.
 
-(* ---- Python default-value expressions exist: the renderer does not raise, every field has a
-   default, every referenced enum has a first member ---- *)
+(* ---- Python default-value expressions exist, for EVERY schema (the guard "no memberless enum"
+   was dropped when the fix of [empty-enum] landed): the renderer does not raise, every field has
+   a default, and the default of an enum-typed field is <Enum>.<first member> or the literal 0 ---- *)
 Theorem C10_py_defaults_exist :
   forall (s : schema) (i : nat) (flt : list string),
-    g_enum_nonempty s i = true ->
     (exists its, render s i TgPy flt = Some its) /\
-    (forall fd n x nested fs fl, In fd (flat_file (getf s i)) -> fd_def fd = DMsg n x nested fs -> In fl fs ->
-       exists us, py_field_default s (fl_ty fl) = Some us) /\
-    (forall r, In r (file_refs s i) -> r_k r = RkEnum -> exists m ms, enum_members s r = Some (m :: ms)).
+    (forall fl, exists us, py_field_default s (fl_ty fl) = Some us) /\
+    (forall r eager, r_k r = RkEnum ->
+       match enum_members s r with
+       | Some (_ :: _) => py_defval s eager (TRef r) = Some [mkUse NsMod (ref_qual LPy r) (ref_name s LPy r) eager]
+       | _ => py_defval s eager (TRef r) = Some []
+       end).
 Proof. exact py_defaults_exist. Qed.
 Print Assumptions C10_py_defaults_exist.
 
-(* an enum without members: IndexError in the renderer when it is a field type, a class with an
-   empty body otherwise  [empty-enum] *)
-Theorem C10_py_defaults_exist_refuted :
-  inside_pre w_empty_enum = true /\ inside_pre w_empty_enum_unused = true /\
-  render w_empty_enum 0 TgPy [] = None /\ py_enums_nonempty w_empty_enum_unused 0 = false.
-Proof. vm_compute. repeat split; reflexivity. Qed.
-Print Assumptions C10_py_defaults_exist_refuted.
+(* ---- string constants: the characters that end or corrupt a double-quoted literal (quote,
+   backslash, LF, CR) are all in the escape table translated from Formatter.escape_str_value,
+   which the three format_str_value apply (checked by the translator); unguarded since the fix
+   of [str-escape] ---- *)
+Theorem C10_string_constants_escaped : forall (s : schema) (i : nat), str_consts_ok s i = true.
+Proof. exact string_constants_escaped. Qed.
+Print Assumptions C10_string_constants_escaped.
+
+(* regression: the former witnesses of the two fixed findings now pass every check of the model *)
+Theorem C10_fixed_findings_regression :
+  inside_pre w_empty_enum = true /\ inside_pre w_empty_enum_unused = true /\ inside_pre w_str = true /\
+  render w_empty_enum 0 TgPy [] <> None /\
+  forallb (fun t => Z.eqb (verdict w_empty_enum 0 t []) 0) [TgH; TgC; TgPy; TgGo] = true /\
+  forallb (fun t => Z.eqb (verdict w_empty_enum_unused 0 t []) 0) [TgH; TgC; TgPy; TgGo] = true /\
+  forallb (fun t => Z.eqb (verdict w_str 0 t []) 0) [TgH; TgC; TgPy; TgGo] = true.
+Proof. vm_compute. repeat split; try reflexivity. discriminate. Qed.
+Print Assumptions C10_fixed_findings_regression.
 
 (* ---- no two generated declarations share a name: C translation unit in standard mode
    (header ++ source): defining declarations (macros, struct tags, typedefs, function
@@ -112,12 +125,10 @@ Print Assumptions C10_go_imports_used_refuted.
 
 (* a message without fields: struct of size 0 in C, 1 in C++  [empty-struct];
    option c.struct_packing_alignment = 3 passes the validator translated from options.py but is
-   not a power of two  [align-nonpow2];  a string constant with a double quote is emitted
-   verbatim  [str-escape] *)
+   not a power of two  [align-nonpow2] *)
 Theorem C10_toolchain_regions_refuted :
   inside_pre w_empty_struct = true /\ structs_nonempty_b (render_items w_empty_struct 0 TgH []) = false /\
-  inside_pre w_align = true /\ align_valid (o_calign (f_opts (getf w_align 0))) = true /\ g_align w_align 0 = false /\
-  inside_pre w_str = true /\ str_consts_ok w_str 0 = false.
+  inside_pre w_align = true /\ align_valid (o_calign (f_opts (getf w_align 0))) = true /\ g_align w_align 0 = false.
 Proof. vm_compute. repeat split; reflexivity. Qed.
 Print Assumptions C10_toolchain_regions_refuted.
 
